@@ -75,6 +75,14 @@ macro_rules! user { () => { r#"
             make: func() -> blob;
         }"# } }
 
+macro_rules! same_names { () => { r#"
+        interface types { record t { a: u32 } enum k { one, two } }
+        interface other { enum t { x, y } }
+        interface first { use types.{t}; f: func() -> t; }
+        interface second { record t { b: string } flags k { p, q } g: func(v: t) -> k; }
+        interface third { use other.{t}; use types.{k}; h: func(v: t) -> k; }
+        interface fourth { variant t { none, some(u8) } type k = list<t>; j: func() -> k; }"# } }
+
 pub const PKGS: &[PkgDesc] = &[
     // 0..3: the C06 universe
     PkgDesc { name: "test:a", version: None, src: Src::Wat(r#"(component
@@ -184,6 +192,23 @@ pub const PKGS: &[PkgDesc] = &[
         (export "mk" (func $mk))
         (export "inner" (instance $in))
         (export "deep" (instance $d)))"#) },
+    // 28: three same-typed function imports: one node can feed several arguments of one instantiation
+    PkgDesc { name: "test:multi", version: None, src: Src::Wat(r#"(component
+        (import "f" (func))
+        (import "g" (func))
+        (import "h" (func))
+        (export "x" (func 0))
+        (export "y" (func 1))
+        (export "run" (func 2)))"#) },
+    // 29..32: sibling interfaces that reuse ONE type name with different shapes; some obtain it by `use`, some define it
+    PkgDesc { name: "n:first-second", version: None, src: Src::Wit(concat!("package n:m@1.0.0;", same_names!(),
+        "world w { import first; import second; export run: func(); }")) },
+    PkgDesc { name: "n:second-first", version: None, src: Src::Wit(concat!("package n:m@1.0.0;", same_names!(),
+        "world w { import second; import first; export run: func(); }")) },
+    PkgDesc { name: "n:mixed", version: Some("0.3.0"), src: Src::Wit(concat!("package n:m@1.0.0;", same_names!(),
+        "world w { import first; import third; import second; import fourth; export run: func(); }")) },
+    PkgDesc { name: "n:producer", version: None, src: Src::Wit(concat!("package n:m@1.0.0;", same_names!(),
+        "world w { export first; export second; export third; }")) },
 ];
 
 /// (package, "i"|"e", name): world items of the packages usable as kinds of explicit imports
